@@ -83,13 +83,13 @@ ALL_CLASSES = list(SPECS)
 def bounds(tier):
     if tier == 'quick':
         return {'classes': QUICK_CLASSES, 'datatypes': ['real', 'complex'], 'depth': 3, 'events_per_class': '18-24',
-                'cross_type_data': False}
+                'cross_type_data': 'depth 2', 'start_states': 'fresh object; object with a computed PSD'}
     return {'classes': ALL_CLASSES, 'datatypes': ['real', 'complex'], 'depth': 5, 'events_per_class': '19-25',
             'cross_type_data': 'depth 3, data= switches real<->complex'}
 
 
 def expected_clauses(tier):
-    return ['fresh', 'df', 'freq_len', 'idempotent']
+    return ['fresh', 'df', 'freq_len', 'idempotent', 'attrs']
 
 
 def events_for(cls, dt, cross=False):
@@ -124,11 +124,15 @@ def shards(tier):
         for dt in ('real', 'complex'):
             for e1 in events_for(cls, dt):
                 out.append(('bfs', cls, dt, depth, [list(e1)], False))
-    if tier == 'thorough':
-        for cls in classes:
-            for dt in ('real', 'complex'):
-                for e1 in events_for(cls, dt, True):
-                    out.append(('bfs', cls, dt, 3, [list(e1)], True))
+                if tier == 'quick' and e1 not in (('read',), ('call',)):
+                    # second family of start states: an object whose PSD has already been computed (most staleness defects
+                    # need a computed PSD first), explored to the same depth
+                    out.append(('bfs', cls, dt, depth + 1, [['read'], list(e1)], False))
+    # data= switching between real and complex records (depth 2 in quick, 3 in thorough)
+    for cls in classes:
+        for dt in ('real', 'complex'):
+            for e1 in events_for(cls, dt, True):
+                out.append(('bfs', cls, dt, 2 if tier == 'quick' else 3, [list(e1)], True))
     return out
 
 
@@ -209,6 +213,48 @@ def check_state(start, hist, R):
 FINAL_ATTRS = ['NFFT', 'sampling', 'detrend', 'scale_by_freq', 'window', 'lag', 'ar_order', 'ma_order']
 
 
+def model_attrs(cls, dt, hist):
+    """Boring reference model of the attribute store: the value every attribute must have after the history
+    (last assigned value; NFFT=None / 'nextpow2' are resolved against the data held at the time of the assignment)."""
+    import inspect
+    import spectrum
+    data = DATA[dt][0]
+    klass = getattr(spectrum, cls)
+    sig = inspect.signature(klass.__init__).parameters
+    c = SPECS[cls]['ctor'](data)
+    names = [p for p in sig][1:]
+    m = {}
+    for a, kwname in SPECS[cls]['ctor_attr'].items():
+        if kwname in sig and sig[kwname].default is not inspect.Parameter.empty:
+            m[a] = sig[kwname].default
+    for i in range(1, len(c['args'])):
+        for a, kwname in SPECS[cls]['ctor_attr'].items():
+            if kwname == names[i]:
+                m[a] = c['args'][i]
+    for k, v in c['kw'].items():
+        for a, kwname in SPECS[cls]['ctor_attr'].items():
+            if kwname == k:
+                m[a] = v
+
+    def resolve(nf, d):
+        if nf is None:
+            return len(d)
+        if nf == 'nextpow2':
+            p = 1
+            while p < len(d):
+                p *= 2
+            return p
+        return nf
+    m['NFFT'] = resolve(m.get('NFFT'), data)
+    for ev in hist:
+        if ev[0] == 'data':
+            data = DATA[ev[1]][ev[2]]
+        elif ev[0] == 'set' and ev[1] != 'sides':
+            m[ev[1]] = resolve(ev[2], data) if ev[1] == 'NFFT' else ev[2]
+    m['data'] = data
+    return m
+
+
 def _read(obj):
     try:
         return np.array(obj.psd), None
@@ -232,11 +278,23 @@ def eval_point(pt, R):
     v, exc = _read(obj)
     R.calls()
     # ---- fresh object with the same final attribute values
+    model = model_attrs(cls, dt, hist)
     final = {}
+    bad = []
     for a in FINAL_ATTRS:
         if hasattr(obj, a):
             final[a] = getattr(obj, a)
-    data = obj.data
+            if a in model:
+                if final[a] != model[a]:
+                    bad.append((a, final[a], model[a]))
+                final[a] = model[a]
+    data = model['data']
+    try:
+        okdata = np.array_equal(np.asarray(obj.data), data) and obj.N == len(data) and obj.datatype == ('complex' if np.iscomplexobj(data) else 'real')
+    except Exception:
+        okdata = False
+    R.check(okdata and not bad, 'attrs', dict(feats, attr=bad[0][0] if bad else 'data'), pt, [b[1] for b in bad] or 'data/N/datatype', [b[2] for b in bad] or 'assigned data',
+            'an attribute getter does not return the value last assigned (or data / N / datatype do not describe the assigned record)')
     sides = obj.sides
     over = {}
     later = {}
